@@ -37,6 +37,8 @@ REVERT_TARGETS = {
     "7670dc1": ["C15"], "ded7f71": ["C05", "C09"], "80fcf3f": ["C07", "C10"],
     "d4b94b2": ["C16"], "bf995d7": ["C19"], "3c101ad": ["C12"], "adcf901": ["C11"], "1592ea1": ["C11"],
     "cc948ef": ["C04", "C01", "C08"], "e8ae21e": ["C19"],
+    "6a3ced7": ["C12"], "67af9ac": ["C10"], "eebcfb0": ["C05", "C07"], "c1878bd": ["C09"], "1a3c814": ["C12"],
+    "c4d5923": ["C13"], "e9ed4ba": ["C14"], "390e6aa": ["C15"], "f25e054": ["C17"],
 }
 
 
